@@ -904,6 +904,16 @@ class Engine:
         """bytes of one format argument -> (byte list, tainted?)"""
         d=deref(val)
         if kind=='debug': return list(b'<dbg>'),True
+        if kind in ('lower_hex','upper_hex'):
+            # {:x} / {:X} without width or fill (a template with a width uses opcodes the template decoder rejects as Unsupported)
+            if not isinstance(d,Int): raise Unsupported('hex formatting of '+repr(d)[:40])
+            if d.conc():
+                t=('%x' if kind=='lower_hex' else '%X')%(d.v&((1<<d.w)-1)); return list(t.encode()),False
+            if d.w!=8: raise Unsupported('hex formatting of a symbolic %d-bit integer'%d.w)
+            from .models import hex_char
+            hc=(lambda n: hex_char(n)) if kind=='lower_hex' else (lambda n: z3.If(z3.ULT(n,10),n+0x30,n+0x37))
+            if run.branch_bool(Bool(z3.ULT(d.v,16)),'hex.onedigit'): return [z3.simplify(hc(d.v&0x0f))],False
+            return [z3.simplify(hc(z3.LShR(d.v,4))),z3.simplify(hc(d.v&0x0f))],False
         if isinstance(d,(Str,StringO)): return list(d.b),d.taint
         if isinstance(d,Int):
             if d.conc(): return list(str(d.signed_val()).encode()),False
